@@ -119,7 +119,7 @@ namespace rkcommon {
       static inline AffineSpaceT rotate(const VectorT &p,
                                         const QuaternionT<ScalarT> &q)
       {
-        return translate(+p) * L(q) * translate(-p);
+        return translate(+p) * AffineSpaceT(L(q)) * translate(-p);
       }
 
       /*! return matrix for looking at given point, only in 3D; right-handed
